@@ -28,7 +28,7 @@ func init() {
 	register(&Check{
 		ID: "C15",
 		Rule: "seed documents (C01 operation/name/text rows, random compositions, the repository's fixture specs) under 1-3 rapid-chosen structural mutations (delete key, null, swap JSON type, drop schema/items, schema->content, non-string server-variable default/enum, unresolved/self/cyclic $ref and alias cycles, unsupported type/format, empty map, parameter without in/name, status 2XX, duplicate path variable); only documents the kin loader accepts count; " +
-			"goag runs in a child process per document (a stack overflow is fatal and unrecoverable): oracle = no panic, no fatal exit, terminates (10 s, re-tried at 60 s), result nil or an error whose text is non-empty and mentions a named element of the document (path template, method, status, parameter/property/component name, media type); a 5% sample also through the CLI (exit status != 0 iff error, no 'panic:' on stderr); " +
+			"goag runs in a child process per document (a stack overflow is fatal and unrecoverable): oracle = no panic, no fatal exit, terminates (10 s, re-tried twice at 30 s), result nil or an error whose text is non-empty and mentions a named element of the document (path template, method, status, parameter/property/component name, media type); a 5% sample also through the CLI (exit status != 0 iff error, no 'panic:' on stderr); " +
 			"non-trivial = loader-accepted mutant that differs from its seed; distinct by hash of the mutated document",
 		Assume: []string{"'says where' is read as 'mentions a named element of the document' (DESIGN.md §11): a terse error that names the element passes",
 			"a timeout is inconclusive unless it reproduces three times at 60 s"},
@@ -693,16 +693,17 @@ func c15Judge(self, dir string, doc map[string]any, client bool, cli string, via
 	os.MkdirAll(out, 0o755)
 	res, stderr, err := runGen1(self, specPath, out, client, 10*time.Second)
 	if err != nil && err.Error() == "timeout" {
+		// (generation takes milliseconds; the retries only rule out a loaded machine)
 		n := 0
-		for i := 0; i < 3; i++ {
-			if _, _, e2 := runGen1(self, specPath, out, client, 60*time.Second); e2 != nil && e2.Error() == "timeout" {
+		for i := 0; i < 2; i++ {
+			if _, _, e2 := runGen1(self, specPath, out, client, 30*time.Second); e2 != nil && e2.Error() == "timeout" {
 				n++
 			}
 		}
-		if n == 3 {
-			return c15Verdict{Class: "violation", Kind: "nontermination", Detail: "goag did not terminate within 60 s (3 attempts)"}
+		if n == 2 {
+			return c15Verdict{Class: "violation", Kind: "nontermination", Detail: "goag did not terminate within 30 s (10 s, then twice 30 s)"}
 		}
-		return c15Verdict{Class: "timeout", Detail: "10 s timeout not reproduced at 60 s"}
+		return c15Verdict{Class: "timeout", Detail: "10 s timeout not reproduced at 30 s"}
 	}
 	if err != nil {
 		site := "fatal"
